@@ -47,7 +47,8 @@ IsBig(m, sh) == sh \in BigShapes(m)
 NOf(m, sh) == IF m = "catch" THEN sh.a + sh.b ELSE sh.a
 Nat0(S) == {v \in S : v >= 0} \cup {NONE}
 
-Vals(n) == Nat0(IF Rich THEN {0, 1, n - 1, n, n + 2} ELSE {0, n, n + 2})
+\* (from 8 objects on also 5 and n - 2: search bounds written in terms of the misses only bite with several misses AND several hits)
+Vals(n) == Nat0((IF Rich THEN {0, 1, n - 1, n, n + 2} ELSE {0, n, n + 2}) \cup (IF n >= 8 THEN {5, n - 2} ELSE {}))
 PassedVals(n) == Nat0(IF Rich THEN {0, 1, n - 1, n, n + 3} ELSE {n - 1, n + 3})
 MaxComboOf(m, sh) == CASE m = "osu" -> sh.d [] m = "taiko" -> sh.a [] m = "catch" -> sh.a + sh.b [] OTHER -> 0
 ComboVals(m, sh) == Nat0({0, MaxComboOf(m, sh) - 1, MaxComboOf(m, sh) + 2})
